@@ -247,6 +247,10 @@ func runLockup(seed uint64, n int, outDir string, replay string) {
 						ans(after)
 						if after != before {
 							o.Violate("c12-lockup-claim-survives-revert", fmt.Sprintf("record `%s` before a claim inside a reverted frame, `%s` after", before, after))
+							// the block's UTXO root was computed with the hash of the record as it stood (balance, unlock height,
+							// elements, delegate); the frame left nothing behind in the accumulator, so the database now holds a
+							// lockup the header does not commit to
+							o.Violate("c06-stored-lockup-not-the-committed-record", fmt.Sprintf("the lockup record the header commits to is `%s`; after a claim inside a reverted frame the database holds `%s`", before, after))
 						}
 						if len(evm.ETXCache) != base {
 							o.Violate("c12-lockup-claim-etx-survives-revert", "ETX of a reverted claim stays in the cache")
